@@ -529,10 +529,20 @@ example : devStore (.num (.f64 (.fin true 3 (-1)))) intT = ["store_negative_frac
     resKind (toReflectValue (.num (.f64 (.fin true 3 (-1)))) intT) = (0, some (-1)) ∧
     resKind (Spec.convertCallParameter (.num (.f64 (.fin true 3 (-1)))) intT) = (1, none) := by decide
 
--- store_error_is_go_panic: s[0] = 1.5 on []int is a Go panic, not a RangeError
-example : devStore (.num (.f64 (.fin false 3 (-1)))) intT = ["store_error_is_go_panic"] ∧
-    resKind (toReflectValue (.num (.f64 (.fin false 3 (-1)))) intT) = (3, none) ∧
+-- (fixed by bb377a4, former region store_error_is_go_panic) s[0] = 1.5 on []int now is a RangeError, as the property demands
+example : devStore (.num (.f64 (.fin false 3 (-1)))) intT = [] ∧
+    resKind (toReflectValue (.num (.f64 (.fin false 3 (-1)))) intT) = (1, none) ∧
     resKind (Spec.convertCallParameter (.num (.f64 (.fin false 3 (-1)))) intT) = (1, none) := by decide
+
+-- store_inf_to_f32_rejected: s[0] = Infinity on []float32 throws although Inf is a float32
+example : devStore (.num (.f64 (.inf false))) (.num .f32) = ["store_inf_to_f32_rejected"] ∧
+    resKind (toReflectValue (.num (.f64 (.inf false))) (.num .f32)) = (1, none) ∧
+    resKind (Spec.convertCallParameter (.num (.f64 (.inf false))) (.num .f32)) = (0, none) := by decide
+
+-- store_fraction_guard_rejects_bool_string: s[0] = 1.5 on []bool throws RangeError
+example : devStore (.num (.f64 (.fin false 3 (-1)))) .bool = ["store_fraction_guard_rejects_bool_string"] ∧
+    resKind (toReflectValue (.num (.f64 (.fin false 3 (-1)))) .bool) = (1, none) ∧
+    resKind (Spec.convertCallParameter (.num (.f64 (.fin false 3 (-1)))) .bool) = (0, none) := by decide
 
 -- store_nan_becomes_zero
 example : devStore (.num (.f64 .nan)) intT = ["store_nan_becomes_zero"] ∧
